@@ -116,14 +116,20 @@ def custom_table_palette(variant=1):
             # variant 4: a table palette with an id of its own; variant 3: a palette that names variant 4 as its PARENT
             # palette and declares the same id again, with another colour (the parent's description is the one that
             # counts: parents are registered first)
+            # (both give the marker of cut cells and the padding a look of their own; the palette of enum cells is the
+            # stock one - the very object the stock table palette of the same configuration uses)
             class VfParentTablePalette(PPTable.TablePalette):
-                SYNTAX_DEFAULTS = dict(PPTable.TablePalette.SYNTAX_DEFAULTS or {}, **{"VFCUSTOM.PB": "RED:underline"})
+                SYNTAX_DEFAULTS = dict(PPTable.TablePalette.SYNTAX_DEFAULTS or {},
+                                       **{"VFCUSTOM.PB": "RED:underline", "VFCUSTOM.PW": "MAGENTA:underline"})
                 border = ConfColor('VFCUSTOM.PB')
+                warn = ConfColor('VFCUSTOM.PW')
 
             class VfChildTablePalette(PPTable.TablePalette):
                 PARENT_PALETTES = [VfParentTablePalette]
-                SYNTAX_DEFAULTS = dict(PPTable.TablePalette.SYNTAX_DEFAULTS or {}, **{"VFCUSTOM.PB": "GREEN:bold"})
+                SYNTAX_DEFAULTS = dict(PPTable.TablePalette.SYNTAX_DEFAULTS or {},
+                                       **{"VFCUSTOM.PB": "GREEN:bold", "VFCUSTOM.PT": "CYAN/g3"})
                 border = ConfColor('VFCUSTOM.PB')
+                text = ConfColor('VFCUSTOM.PT')
 
             _CUSTOM[3], _CUSTOM[4] = VfChildTablePalette, VfParentTablePalette
             return _CUSTOM[variant]
